@@ -7,10 +7,10 @@ from gens import dt as G
 from lib.engine import R, V, enum_part, hyp_part
 
 ID = 'C09'
-RULE = ('(month, day) over all 366 valid pairs x layouts (Month d, m/d, d Month, Month dth) and the seven weekday names x reference datetimes '
+RULE = ('English: (month, day) over all 366 valid pairs x layouts (Month d, m/d, d Month, Month dth) and the seven weekday names x reference datetimes '
         '1950-2090, with the reference FORCED to the interesting relations (the stated day itself, the day before, the day after, Feb 28 / Feb 29 '
         '/ Mar 1 of leap and non-leap years, midnight and non-midnight times), half of the cases preceded by the same text under the sibling reference of the same day; thorough enumerates all 366 pairs x a reference grid; '
-        'non-trivial = stated day within one day of the reference date, or 29 February; distinct = (query, reference)')
+        'other cultures (es, fr, pt, it, de, nl, zh): weekday names and month-day layouts typed into the harness, references forced the same way; non-trivial = stated day within one day of the reference date, or 29 February; distinct = (query, reference)')
 ASSUMPTIONS = ['past = latest occurrence strictly before the reference DATE, future = earliest occurrence on or after it (10-line search over years)']
 TD = dt.timedelta
 LAYOUTS = {
@@ -94,6 +94,92 @@ def run_case(case):
         vs.append(V('CANDIDATES_WRONG', {'query': q, 'ref': case['ref'], 'expected': want, 'got': got}, bucket=bucket))
     return R(vs, nontrivial=near, labels=[bucket, 'ref:midnight' if ref.time() == dt.time(0, 0) else 'ref:daytime'],
              obs={'query': q, 'ref': case['ref'], 'entities': got}, key=[q, case['ref'], case.get('pre_ref')], evals=2 if case.get('pre_ref') else 1)
+
+
+# ---- other cultures (weekday names and month-day layouts typed into the harness) ---------------------------------------------
+WEEKDAYS = {
+    'es-es': ['lunes', 'martes', 'miércoles', 'jueves', 'viernes', 'sábado', 'domingo'],
+    'fr-fr': ['lundi', 'mardi', 'mercredi', 'jeudi', 'vendredi', 'samedi', 'dimanche'],
+    'pt-br': ['segunda-feira', 'terça-feira', 'quarta-feira', 'quinta-feira', 'sexta-feira', 'sábado', 'domingo'],
+    'it-it': ['lunedì', 'martedì', 'mercoledì', 'giovedì', 'venerdì', 'sabato', 'domenica'],
+    'de-de': ['Montag', 'Dienstag', 'Mittwoch', 'Donnerstag', 'Freitag', 'Samstag', 'Sonntag'],
+    'nl-nl': ['maandag', 'dinsdag', 'woensdag', 'donderdag', 'vrijdag', 'zaterdag', 'zondag'],
+    'zh-cn': ['星期一', '星期二', '星期三', '星期四', '星期五', '星期六', '星期日'],
+}
+MD_LAYOUTS = {
+    'es-es': {'d de mes': lambda m, d: '%d de %s' % (d, G.MONTHS['es'][m - 1]), 'd/m': lambda m, d: '%d/%d' % (d, m), 'el d-m': lambda m, d: '%d-%d' % (d, m)},
+    'fr-fr': {'d mois': lambda m, d: '%d %s' % (d, G.MONTHS['fr'][m - 1]), 'd/m': lambda m, d: '%d/%d' % (d, m)},
+    'pt-br': {'d de mes': lambda m, d: '%d de %s' % (d, G.MONTHS['pt'][m - 1]), 'd/m': lambda m, d: '%d/%d' % (d, m)},
+    'it-it': {'d mese': lambda m, d: '%d %s' % (d, G.MONTHS['it'][m - 1]), 'd/m': lambda m, d: '%d/%d' % (d, m)},
+    'de-de': {'d. Monat': lambda m, d: '%d. %s' % (d, G.MONTHS['de'][m - 1]), 'd.m.': lambda m, d: '%d.%d.' % (d, m)},
+    'nl-nl': {'d maand': lambda m, d: '%d %s' % (d, G.MONTHS['nl'][m - 1]), 'd/m': lambda m, d: '%d/%d' % (d, m)},
+    'zh-cn': {'m月d日': lambda m, d: '%d月%d日' % (m, d)},
+}
+OTHER_CARRIERS = {'es-es': ['{}', 'volveré el {}'], 'fr-fr': ['{}', 'je reviens {}'], 'pt-br': ['{}', 'volto {}'], 'it-it': ['{}', 'torno {}'],
+                  'de-de': ['{}', 'ich komme {} zurück'], 'nl-nl': ['{}', 'ik kom {} terug'], 'zh-cn': ['{}', '我{}回来']}
+
+
+def run_other(case):
+    c = case['culture']
+    if case['kind'] == 'md':
+        expr = MD_LAYOUTS[c][case['layout']](case['m'], case['d'])
+    else:
+        expr = WEEKDAYS[c][case['wd']]
+    q = case['carrier'].format(expr)
+    pos = q.index(expr)
+    ref = dt.datetime.fromisoformat(case['ref'])
+    got = G.parse(c, q, case['ref'])
+    if case['kind'] == 'md':
+        past, fut = occurrences(case['m'], case['d'], ref.date())
+        tx = 'XXXX-%02d-%02d' % (case['m'], case['d'])
+        near = abs((dt.date(2000, case['m'], case['d']) - dt.date(2000, ref.month, ref.day)).days) <= 1 if (ref.month, ref.day) != (2, 29) else True
+    else:
+        fut = ref.date() + TD((case['wd'] - ref.weekday()) % 7)
+        past = fut - TD(7)
+        tx = 'XXXX-WXX-%d' % (case['wd'] + 1)
+        near = (case['wd'] - ref.weekday()) % 7 in (0, 1, 6)
+    want = [{'timex': tx, 'type': 'date', 'value': past.isoformat()}, {'timex': tx, 'type': 'date', 'value': fut.isoformat()}]
+    vs = []
+    ok = len(got) == 1 and G.covers(got[0], q, pos, expr) and got[0]['type'] == 'datetimeV2.date' and got[0]['values'] == want
+    if not ok:
+        vs.append(V('CANDIDATES_WRONG', {'culture': c, 'query': q, 'ref': case['ref'], 'expected': want, 'got': got}, bucket='%s:%s' % (c, case['kind'])))
+    return R(vs, nontrivial=near, labels=['culture:' + c, case['kind']], obs={'query': q, 'ref': case['ref'], 'entities': got}, key=[c, q, case['ref']])
+
+
+def other_cases():
+    pairs = all_pairs()
+
+    def mk(c, kind, p, li, wd, r, rel, ci):
+        ref = dt.datetime.fromisoformat(r)
+        if kind == 'md':
+            if rel is not None:
+                try:
+                    base = dt.date(ref.year, p[0], p[1])
+                except ValueError:
+                    base = dt.date(ref.year, 3, 1)
+                x = base + TD(rel)
+                ref = ref.replace(year=x.year, month=x.month, day=x.day)
+            names = sorted(MD_LAYOUTS[c])
+            layout = names[li % len(names)]
+            carrier = OTHER_CARRIERS[c][ci % 2]
+            if layout == 'el d-m':
+                carrier = 'volveré el {}'
+            return {'culture': c, 'kind': 'md', 'm': p[0], 'd': p[1], 'layout': layout, 'ref': ref.isoformat(), 'carrier': carrier}
+        if rel is not None:
+            ref = ref + TD(days=(wd - ref.weekday()) % 7 + rel)      # force the reference onto / next to the named weekday
+        return {'culture': c, 'kind': 'wd', 'wd': wd, 'ref': ref.isoformat(), 'carrier': OTHER_CARRIERS[c][ci % 2]}
+    return st.builds(mk, st.sampled_from(sorted(WEEKDAYS)), st.sampled_from(['md', 'md', 'wd']),
+                     st.one_of(st.sampled_from(pairs), st.sampled_from([(2, 29), (2, 28), (3, 1), (12, 31), (1, 1), (10, 5), (5, 10)])), st.integers(0, 5),
+                     st.integers(0, 6), G.refs(), st.sampled_from([None, None, -1, 0, 0, 1]), st.integers(0, 3))
+
+
+def same_day_nonmidnight_other(case, v=None):
+    if case.get('culture') is None or case.get('kind') != 'md':
+        return False
+    ref = dt.datetime.fromisoformat(case['ref'])
+    return (case['m'], case['d']) == (ref.month, ref.day) and ref.time() != dt.time(0, 0, 0)
+
+
 
 
 def all_pairs():
@@ -183,4 +269,5 @@ def parts(tier, seed):
     return [
         enum_part('forced-relations', forced_enum(q), run_case, exhaustive=True),
         hyp_part('random', cases, run_case, 3000 if q else 150000, min_shard=250),
+        hyp_part('other-cultures', other_cases, run_other, 2500 if q else 70000, min_shard=250),
     ]
